@@ -569,7 +569,9 @@ EofSafe(cd, se) == \A o \in DT2 \ {cd} : st.cR[o] # 0 => ~se /\ ~st.cSE[o]
 \* B.redirect(stdout / stderr = target, recv_eof = re)
 RedirectB(d, kind, re, cd, se, via) ==
     /\ HasB /\ d \in InDT /\ kind \in TKinds /\ st.nrb < MaxRedirB /\ ~st.bLost
-    /\ kind = "merge" => d = "y"
+    \* (merging stderr into a stdout writer that EOF has already closed loses
+    \* what stderr had buffered - observed, not modelled)
+    /\ kind = "merge" => d = "y" /\ ~st.bEof
     /\ kind = "none" => st.bW[d] # 0
     /\ kind = "proc" => HasC /\ cd \in OutDT /\ ~st.cLost /\ st.cSst = "open" /\ EofSafe(cd, se)
     /\ kind # "proc" => cd = "x" /\ se /\ via = "w"
